@@ -2,6 +2,7 @@
   C02 — disk archive round trip (.sd and .fd): create, then list/extract, is lossless.
   (first layer: the catalog size law, the chain written is the chain read)
 -/
+import MotoModel.Proofs.GenFn
 import MotoModel.Props.C05
 import MotoModel.Props.C07
 import MotoModel.Proofs.DiskWriteRead
@@ -152,5 +153,10 @@ example : OrdinarySrc (Tape.str "a.bas") := by
   refine ⟨by unfold CleanSrc; decide, ?_⟩
   unfold NiceRec
   decide +kernel
+
+/-- **C02 (sector and block arithmetic, tied by translation)**: `_computeRequiredSlots` of
+    controller.py, translated from the source on every run, is the model's function for all sizes -/
+theorem generated_required_slots (n k : Nat) : Gen.Fn.computeRequiredSlots n k = computeRequiredSlots n k :=
+  GenFn.computeRequiredSlots_eq n k
 
 end Moto.C02
